@@ -63,10 +63,10 @@ pub mod cfg {
     pub const CODE_DST_SORTS_NODES: bool = true;
     /// SimulatedNode::get_all_deltas: true = sorted by key (fixes-sim-s3 e148545), false = HashMap
     /// iteration order (the code as it is); sent to the C20 model with every `DELTAS` line
-    pub const CODE_MN_SORTS_DELTAS: bool = false;
+    pub const CODE_MN_SORTS_DELTAS: bool = true;
     /// DSTSimulation::with_config: true = resets the thread's BUGGIFY statistics (fixes-sim-s3), false = the
     /// statistics copied into SimulationResult are cumulative over every run on the thread (the code as it is)
-    pub const CODE_DST_RESETS_STATS: bool = false;
+    pub const CODE_DST_RESETS_STATS: bool = true;
     /// segment DeltaIterator: true = error when fewer records than record_count are present
     pub const CODE_SEGMENT_STRICT_COUNT: bool = true;
 
